@@ -9,8 +9,8 @@
 (* Each row is first judged by the LAW (Part A of GlomStream: outputs = reference            *)
 (* composition, END where the reference ends, pulled <= DemandLA), then its event            *)
 (* interleaving is stepped through the pull machine (Part B), action by action.             *)
-(* Printed: {"reject": i, "clause": c} - clauses "outputs", "outputs:sentinel-dropped",      *)
-(* "end", "laziness" are violations of the law; "drift:*" means only the mechanism model      *)
+(* Printed: {"reject": i, "clause": c} - clauses "outputs", "end", "laziness" are            *)
+(* violations of the law; "drift:*" means only the mechanism model                            *)
 (* disagrees - and finally {"done": n, "skipped": ill-typed rows}.                           *)
 EXTENDS GlomStream, Json, IOUtils
 
@@ -43,11 +43,7 @@ JudgeAgainst(P, r) ==
 
 LawVerdict(r) ==
   LET pr == Predict(r.pipe, r.srcd, r.kmax, r.horizon) IN
-  IF pr.bad \/ pr.demLA[1] = INF THEN "skip"
-  ELSE LET v == JudgeAgainst(pr, r) IN
-       IF v # "" /\ pr.alt.on /\ (pr.alt.p.bad \/ pr.alt.p.demLA[1] = INF \/ JudgeAgainst(pr.alt.p, r) = "")
-       THEN "outputs:sentinel-dropped"
-       ELSE v
+  IF pr.bad \/ pr.demLA[1] = INF THEN "skip" ELSE JudgeAgainst(pr, r)
 
 \* ---- stepping -------------------------------------------------------------------------------
 Row == Rows[i]
